@@ -582,7 +582,7 @@ def method(interp, v, name):
         return interp.strings.method(v, name)
     if is_num(v):
         if name == 'item':
-            return Builtin('item', lambda: v)
+            return Builtin('item', lambda *a: v)
         if name == 'is_integer' and isinstance(v, Fraction):
             return Builtin('is_integer', lambda: v.denominator == 1)
         if name == 'real':
